@@ -124,7 +124,8 @@ inline constexpr bool IS_NOTRHOW_LEXICOGRAPHICAL_COMPARABLE<
 template <class T, class U>
 inline constexpr bool MEMCPY_COMPATIBLE =
     detail::EQUAL_SIZEOF<T, U> && std::is_trivially_copyable_v<T> && std::is_trivially_copyable_v<U> &&
-    std::is_floating_point_v<T> == std::is_floating_point_v<U>;
+    (std::is_same_v<std::remove_cv_t<T>, std::remove_cv_t<U>> ||
+     (std::is_integral_v<T> && std::is_integral_v<U> && !std::is_same_v<std::remove_cv_t<T>, bool>));
 
 // Implementation taken from MSVC _Can_memcmp_elements
 template <class T, class U = T,
